@@ -17,6 +17,9 @@ namespace Grafeo.Lpg
 /-- `TxId::SYSTEM` -/
 def systemTx : Nat := 1
 
+/-- `EpochId::PENDING`: the stamp of a version whose transaction has not committed -/
+def pendingEpoch : Nat := 2 ^ 64 - 1
+
 structure Ver where
   created : Nat            -- created_epoch
   owner : Nat              -- created_by
@@ -276,7 +279,33 @@ def Store.findByProp (s : Store) (key : Nat) (v : String) : List Nat :=
 
 /-- `discard_uncommitted_versions(tx)`: only the version chains are touched. -/
 def Store.discard (s : Store) (tx : Nat) : Store :=
-  { s with nodes := (s.nodes.map (fun kv => (kv.1, kv.2.filter (fun v => v.owner != tx)))).filter (fun kv => !kv.2.isEmpty),
-           edges := (s.edges.map (fun kv => (kv.1, (kv.2.1.filter (fun v => v.owner != tx), kv.2.2)))).filter (fun kv => !kv.2.1.isEmpty) }
+  -- edges all of whose versions belong to `tx` disappear altogether: their adjacency entries and
+  -- properties go too (`discard_uncommitted_versions`)
+  let gone := s.edges.filter (fun kv => kv.2.1.any (fun v => v.owner == tx) && kv.2.1.all (fun v => v.owner == tx))
+  let s1 := gone.foldl (fun st kv =>
+    { st with fwd := adjDel st.fwd kv.2.2.src kv.1,
+              bwd := if st.hasBwd then adjDel st.bwd kv.2.2.dst kv.1 else st.bwd,
+              eprops := aerase st.eprops kv.1 }) s
+  { s1 with nodes := (s.nodes.map (fun kv => (kv.1, kv.2.filter (fun v => v.owner != tx)))).filter (fun kv => !kv.2.isEmpty),
+            edges := (s.edges.map (fun kv => (kv.1, (kv.2.1.filter (fun v => v.owner != tx), kv.2.2)))).filter (fun kv => !kv.2.1.isEmpty) }
+
+/-- `sync_epoch`: the store's counter follows the manager's, never backwards -/
+def Store.syncEpoch (s : Store) (e : Nat) : Store := { s with epoch := max s.epoch e }
+
+def restamp (tx e : Nat) (c : List Ver) : List Ver :=
+  c.map (fun v => if v.owner == tx && v.created == pendingEpoch then { v with created := e } else v)
+
+/-- `finalize_versions(tx, commit_epoch)`: pending versions of `tx` get the commit epoch -/
+def Store.finalize (s : Store) (tx e : Nat) : Store :=
+  { s with nodes := s.nodes.map (fun kv => (kv.1, restamp tx e kv.2)),
+           edges := s.edges.map (fun kv => (kv.1, (restamp tx e kv.2.1, kv.2.2))),
+           epoch := max s.epoch e }
+
+/-- `all_node_ids()`: every node that has a version, visible or not -/
+def Store.allNodeIds (s : Store) : List Nat := s.nodes.map (·.1)
+
+/-- `node_count()` / `edge_count()`: live at `EpochId::PENDING`, i.e. open transactions' work included -/
+def Store.nodeCount (s : Store) : Nat := (s.nodes.filter (fun kv => chainVisibleAt kv.2 pendingEpoch)).length
+def Store.edgeCount (s : Store) : Nat := (s.edges.filter (fun kv => chainVisibleAt kv.2.1 pendingEpoch)).length
 
 end Grafeo.Lpg
